@@ -26,7 +26,7 @@ func setup(t *testing.T) (*Gen, *bufio.Writer, func()) {
 		t.Fatal(err)
 	}
 	seed := int64(envInt("VERIF_SEED", 1))
-	g := &Gen{R: rand.New(rand.NewSource(seed)), Big: os.Getenv("VERIF_BIG") == "1"}
+	g := &Gen{R: rand.New(rand.NewSource(seed)), Big: os.Getenv("VERIF_BIG") == "1", Seed: seed}
 	out := os.Getenv("VERIF_OUT")
 	if out == "" {
 		out = "/dev/stdout"
@@ -112,16 +112,28 @@ func TestTrace(t *testing.T) {
 		type sysv struct {
 			full      bool
 			alone, ws int
+			ns        int
 		}
-		sys := []sysv{{true, -1, 0}}
+		sys := []sysv{{true, -1, 0, 0}}
 		for i := range e.M.Fields {
 			if isData(e.M.Fields[i].Kind) {
-				sys = append(sys, sysv{true, i, 0})
+				sys = append(sys, sysv{true, i, 0, 0})
 			}
 		}
 		if e.HasWire(0) {
 			for k := 1; k <= nWireShapes; k++ {
-				sys = append(sys, sysv{true, -1, k})
+				sys = append(sys, sysv{true, -1, k, 0})
+			}
+		}
+		// every name-typed field (Name, InterestName, names in sequences, at any depth) with every component count of the
+		// generic size list and with encoded sizes around 253; around 65536 for every model in the thorough tier, for a
+		// few models per run in the quick tier (64 KiB inputs)
+		if e.HasName(0) && os.Getenv("VERIF_NONAMESHAPES") != "1" {
+			for k := 1; k <= nNameShapes; k++ {
+				if k > len(sizeSteps)+3 && !allpos && (e.Pi*31+e.Mi)%6 != int(g.Seed%6) {
+					continue
+				}
+				sys = append(sys, sysv{true, -1, 0, k})
 			}
 		}
 		for k := 0; k < n+len(sys); k++ {
@@ -133,9 +145,18 @@ func TestTrace(t *testing.T) {
 				sv := sys[k-n]
 				save := g.Big
 				g.Big = false
-				g.Full, g.Alone, g.WireShape = sv.full, sv.alone+1, sv.ws
+				g.Full, g.Alone, g.WireShape, g.NameShape = sv.full, sv.alone+1, sv.ws, sv.ns
+				g.NameTarget = -1
+				if sv.ns > 7 { // 64 components and more / large encodings: one name position per value, rotating over the positions
+					g.nameCnt = 0
+					e.GenStruct(g)
+					if g.nameCnt > 0 {
+						g.NameTarget = (sv.ns + e.Pi + e.Mi + int(g.Seed)) % g.nameCnt
+					}
+				}
+				g.nameCnt = 0
 				p = e.GenStruct(g)
-				g.Full, g.Alone, g.WireShape = false, 0, 0
+				g.Full, g.Alone, g.WireShape, g.NameShape = false, 0, 0, 0
 				g.Big = save
 			} else {
 				save := g.Big
